@@ -13,7 +13,12 @@ func extractGen(repo string) (string, error) {
 	if err != nil {
 		return "", err
 	}
+	pc, err := skeletonsOf(repo, "generate/genqlient_directive.go", []string{"generator.parsePrecedingComment"})
+	if err != nil {
+		return "", err
+	}
 	return "-- regenerated from /repo/generate/parse.go and generate.go by harness/cmd/extract on every run\n" +
 		"import Genq.Model.Skel\nnamespace Genq.Extracted\nopen Genq.Skel\n" +
-		"def expandFilenamesSkeleton : List Fn := " + a + "\n\ndef writeTypesSkeleton : List Fn := " + b + "\nend Genq.Extracted\n", nil
+		"def expandFilenamesSkeleton : List Fn := " + a + "\n\ndef writeTypesSkeleton : List Fn := " + b +
+		"\n\ndef parsePrecedingCommentSkeleton : List Fn := " + pc + "\nend Genq.Extracted\n", nil
 }
